@@ -100,7 +100,7 @@ INVARIANTS = [
     "C14_AbortAllOnExceed", "C14_ExceededStopped", "C14_NoAbortWithin",
     "C05_MnExclusive", "C05_MnWorkersIdle",
 ]
-JOURNAL_INV = ["J_RestoreSucceeds", "J_OutcomesRestored", "J_InstFresh", "J_CrashKept", "J_DepsConsistent"]
+JOURNAL_INV = ["J_RestoreSucceeds", "J_OutcomesRestored", "J_InstFresh", "J_CrashKept", "J_DepsConsistent", "J_PruneKeepsRestore", "J_PruneIdempotent"]
 EAGER_ONLY = ["C01_OutcomeAtRest", "C02_QuiescentOk", "C08_OthersNotStuck"]
 STEP_PROPS = ["C03_NoEarlyStartStep", "C08_NoStartAfterCancelSeenStep", "C06_NoStartAfterGiveBackStep", "C06_StartedIsRealStep"]
 
